@@ -6,6 +6,7 @@ use crate::oracle::{self, Mat};
 use proptest::collection::vec;
 use proptest::prelude::*;
 use serde::{Deserialize, Serialize};
+use smartcore::linalg::naive::dense_matrix::DenseMatrix;
 use smartcore::linear::linear_regression::{LinearRegression, LinearRegressionParameters, LinearRegressionSolverName};
 use smartcore::linear::ridge_regression::{RidgeRegression, RidgeRegressionParameters, RidgeRegressionSolverName};
 use smartcore::math::num::RealNumber;
@@ -98,9 +99,11 @@ fn run<T: RealNumber>(case: &RegCase, ctx: &mut Ctx) -> Result<(), Fail> {
     for solver in [LinearRegressionSolverName::QR, LinearRegressionSolverName::SVD] {
         let tag = format!("ols/{:?}", solver).to_lowercase();
         let r = catch(|| {
-            let m = LinearRegression::fit(&xm, &ty, LinearRegressionParameters::default().with_solver(solver.clone())).map_err(|e| e.to_string())?;
+            // inherent entry points, or (every other case) the generic traits of smartcore::api
+            let via_trait = (n + p) % 2 == 1;
+            let m: LinearRegression<T, DenseMatrix<T>> = if via_trait { sup_fit(&xm, &ty, LinearRegressionParameters::default().with_solver(solver.clone())) } else { LinearRegression::fit(&xm, &ty, LinearRegressionParameters::default().with_solver(solver.clone())) }.map_err(|e| e.to_string())?;
             let w = to_mat(m.coefficients());
-            let pred = m.predict(&fm).map_err(|e| e.to_string())?;
+            let pred: Vec<T> = if via_trait { tr_predict(&m, &fm) } else { m.predict(&fm) }.map_err(|e| e.to_string())?;
             Ok::<_, String>((w, ft(m.intercept()), fvec(&pred)))
         });
         let (w, b, pred) = match r {
@@ -154,9 +157,10 @@ fn run<T: RealNumber>(case: &RegCase, ctx: &mut Ctx) -> Result<(), Fail> {
         let r = catch(|| {
             // builder calls in two orders (a setter that rebuilds from the defaults would lose earlier settings)
             let params = if n % 2 == 0 { RidgeRegressionParameters::default().with_alpha(tf::<T>(alpha)).with_normalize(case.normalize).with_solver(solver.clone()) } else { RidgeRegressionParameters::default().with_solver(solver.clone()).with_normalize(case.normalize).with_alpha(tf::<T>(alpha)) };
-            let m = RidgeRegression::fit(&xm, &ty, params).map_err(|e| e.to_string())?;
+            let via_trait = (n + p) % 2 == 1;
+            let m: RidgeRegression<T, DenseMatrix<T>> = if via_trait { sup_fit(&xm, &ty, params) } else { RidgeRegression::fit(&xm, &ty, params) }.map_err(|e| e.to_string())?;
             let w = to_mat(m.coefficients());
-            let pred = m.predict(&fm).map_err(|e| e.to_string())?;
+            let pred: Vec<T> = if via_trait { tr_predict(&m, &fm) } else { m.predict(&fm) }.map_err(|e| e.to_string())?;
             Ok::<_, String>((w, ft(m.intercept()), fvec(&pred)))
         });
         let (w, b, pred) = match r {
